@@ -9,6 +9,8 @@ R4 do_lookup: found -> CAS curr -> curr+1; inserted -> count 1; raced -> fetch_a
 R5 who may write the reference count / remove from the store
 R6 inode-number layout constants (host/virtual fields disjoint and within the VFS limit)
 R1 (cont.) an explicit `return Err` after the lookup counts like `?`; whatever is given back is entry.inode, once
+R7 identity lookup: by file handle first, by id only without a conflicting handle (combinator or control-flow spelling)
+R8 the provided FileSystem::batch_forget forwards every (inode, count) pair
 """
 import re
 from pyfbr import core, vf
